@@ -30,6 +30,7 @@
 #include <stdlib.h>
 #include <stdio.h>
 #include <string.h>
+#include <errno.h>
 #include <stdint.h>
 #include <stdbool.h>
 #include <sys/types.h>
@@ -334,6 +335,11 @@ int main (int argc, char *argv[]) {
             }
         }
         write_data(zck, data + start, in_size - (start + matched));
+    }
+    /* A failed read is not the end of the input */
+    if(in_size < 0) {
+        LOG_ERROR("Error reading %s: %s\n", arguments.args[0], strerror(errno));
+        exit(1);
     }
 
     close(in_fd);
